@@ -40,7 +40,9 @@ MANIFEST = {
     "against the info; scripted server faults at every request position of a fetch must "
     "surface as errors.  The server's request log is part of the evidence.",
     "level_note": "Trusted: harness/httpd.py as an implementation of the documented server "
-    "configuration; local accessors as the reference (they are checked by C03/C05/C12).",
+    "configuration; local accessors as the reference (they are checked by C03/C05/C12); "
+    "harness/refs/shard_spec.rewrite_interleaved as a producer of the shard layout other "
+    "writers of the format use (its output is read back by the specification-only reader).",
     "technique": "runtime monitoring: differential HTTP-vs-local oracle with a scripted "
     "fault-injecting loopback server and request-log evidence",
     "design_ref": "DESIGN.md section 2, C14",
